@@ -52,11 +52,11 @@ PROPS = {
         explanation='Proved for all strings (Verus): from_str == parse_post (the parser as a specification function written from the statement), Display::fmt == canon_spec, build() canonicalises; complete on a finite domain (Kani): every byte of every escape set through the real encoder. NOT proved: the theorem about the two specification functions that parsing a canonical string gives the value back; it is checked BOUNDED on the real code: every accepted string of the token language T_N and of the spelling domain S is printed, re-parsed, compared and printed again, for String, SmallString and PackageType.'),
     'C02': dict(level='other', groups=['parse', 'parse_seg', 'lib_shape', 'qual', 'cksum'], kani=['type_char', 'key_char'], bounded=['spell:C02', 'tokens:C02'] + A,
         explanation="Proved for all strings (Verus): from_str == parse_post -- designated separators taken right to left (last '#', last '?', first '/', last '@', last '/'), each component routed to its decoder; decode_subpath / decode_namespace / decode_qualifiers equal their fold specifications; type and key legality and lower-casing; checksum text. BOUNDED: that every permitted spelling of a tuple is mapped to the tuple by these specification functions -- exhaustive tuples x spelling freedoms (S) and every T_N string against an independent reference parser, on the real code."),
-    'C03': dict(level='other', groups=['fmt', 'qual', 'purl', 'pkgtype'], kani=ESC, bounded=['format:C03', 'tokens:C03', 'spell:C03', 'qualmap'] + A,
+    'C03': dict(level='other', groups=['fmt', 'qual', 'purl', 'pkgtype'], kani=ESC, bounded=['format:C03', 'tokens:C03', 'spell:C03', 'qualmap', 'preds', 'shapes'] + A,
         explanation='Proved (Verus): on Ok, the output of Display::fmt is exactly canon_spec(type, parts) = pkg: type / [namespace /] name [@ version] [? k=v & ...] [# subpath] with absent parts omitted, pairs in storage order; storage order is strictly ascending after every verified mutator; accessors map empty to None; the documented panic is the precondition. Complete (Kani): every byte of every escape set, upper-case hex. BOUNDED: retain keeps the order; cross-check against an independent renderer on every Unicode scalar value in every component position, all ASCII pairs, T_N, S, and the map exploration.'),
     'C04': dict(level='other', groups=['builder', 'parse', 'lib_shape', 'qual', 'pkgtype', 'cksum', 'purl'], kani=['type_char', 'key_char'], bounded=['tokens:C04', 'builder', 'protocol', 'preds', 'checksum'] + A,
         explanation='Proved (Verus) for every PurlShape implementation: build() returns a value with non-empty name, the qualifier invariant (valid lower-case keys, strictly ascending, each retrievable: search/get contracts), non-empty values including the checksum text, after exactly one hook call (build_post); from_str ends in build() (parse_post); built-in shapes validate and ASCII-lower-case the type; the checksum text is the strictly sorted listing with lower-case hex (canon_text). Assumed at two call sites inside build(): Qualifiers::retain(non-empty) (FnMut is outside Verus) and try_get_typed::<Checksum>() -- both BOUNDED by the map / checksum / protocol suites.'),
-    'C05': dict(level='other', groups=['parse', 'parse_seg', 'lib_shape', 'qual', 'pkgtype', 'builder', 'cksum'], kani=['type_char', 'key_char'], bounded=['faults', 'tokens:C05'] + A,
+    'C05': dict(level='other', groups=['parse', 'parse_seg', 'lib_shape', 'qual', 'pkgtype', 'builder', 'cksum'], kani=['type_char', 'key_char'], bounded=['faults', 'tokens:C05', 'lower', 'checksum'] + A,
         explanation="Proved (Verus): the error clauses of parse_post (scheme, missing type, missing name, invalid type before the conversion), dq_fold (item without '=', invalid key, key already present => InvalidQualifier; undecodable value => InvalidEscape), sub_fold / ns_fold (hidden '/', encoded dot segments, bad UTF-8 => InvalidEscape), ck_parse / canon text (malformed checksum => InvalidQualifier), build_post (empty name), pkg_finish_rel (maven without namespace), with the conversion of ParseError through From. BOUNDED: that a string with exactly one listed defect reaches exactly that clause -- every fault kind x position x spelling over S, never-accepted over T_N; PackageType::from_str (phf)."),
     'C06': dict(level='other', groups=['lib_lower', 'lib_shape', 'pkgtype', 'qual', 'builder', 'purl', 'parse_seg', 'cksum', 'fmt', 'parse'], kani=ESC + ['type_char', 'key_char', 'empty_is_invalid', 'package_type_names'],
         bounded=['nopanic', 'tokens:C06', 'checksum', 'qualmap', 'protocol', 'preds', 'builder'],
@@ -65,7 +65,7 @@ PROPS = {
         explanation="Proved (Verus): decode_subpath / decode_namespace equal sub_fold / ns_fold of the pieces between raw '/'; lemma_c07_subpath / lemma_c07_namespace: splitting the reported text at '/' gives back exactly the decoded non-skipped pieces, none empty, none containing '/', none '.' or '..' (subpath); parse_post routes the text after the last '#' / before the last '/' to them. Assumed: a non-empty piece decodes to a non-empty string (A). BOUNDED cross-check: all spellings from 12 pieces up to 4 / 6 pieces, T_N."),
     'C08': dict(level='other', groups=['lib_lower', 'pkgtype', 'builder', 'parse'], kani=['package_type_names'], bounded=['pkgrules', 'lower', 'tokens:C08'] + A,
         explanation='Proved for all strings and all seven variants (Verus): nuget name = Unicode lower-casing (lower_seq), pypi name = pypi_norm written from the statement, maven refused iff the namespace has no significant segment, every other field untouched (frame), parser and builder both end in build() which applies the hook once. Unicode tables validated exhaustively (A). BOUNDED: unknown-type refusal (phf / unicase lookup), cross-checks on every scalar value.'),
-    'C09': dict(level='other', groups=['builder', 'qual', 'pkgtype', 'purl', 'fmt'], kani=ESC, bounded=['builder', 'format:C09'] + A,
+    'C09': dict(level='other', groups=['builder', 'qual', 'pkgtype', 'purl', 'fmt'], kani=ESC, bounded=['builder', 'format:C09', 'preds', 'shapes'] + A,
         explanation='Proved (Verus): every setter sets its field and leaves every other field unchanged (frames => override and commutation), with_qualifier accepts exactly valid keys with the whole-content postcondition of insert, build() succeeds / fails as stated (build_post), Display == canon_spec. BOUNDED: that the string form re-parses to the same fields -- all call sequences of length <= 2 / 3 over a value universe, and every scalar value in every field.'),
     'C10': dict(level='other', groups=['builder', 'purl', 'lib_lower', 'pkgtype', 'cksum'], kani=[], bounded=['tokens:C10', 'spell:C10', 'builder'] + A,
         explanation='Proved (Verus): into_builder moves type and parts unchanged, build() = hook + generic clean-up (build_post), name rules are the specification functions lower_seq / pypi_norm, checksum text = canon_text. BOUNDED: idempotence of the whole pipeline on produced values -- every accepted T_N / S string and every built value is re-built and compared.'),
@@ -96,6 +96,26 @@ PROPS = {
         explanation='Proved (Verus): QualifierKey comparisons are total and coincide with structural equality on stored keys. Derived Eq/Hash/Ord are assumed consistent (compiler). '
                     'Injectivity of the string form is BOUNDED: all pairs of a near-collision corpus, String and PackageType.'),
 }
+
+ALL_GROUPS = ['lib_lower', 'lib_shape', 'pkgtype', 'qual', 'builder', 'purl', 'parse_seg', 'cksum', 'fmt', 'parse']
+
+
+def _auto_groups():
+    """a property runs every group that verifies (with its body) at least one unit tagged with it"""
+    for g in ALL_GROUPS:
+        try:
+            grp = extract.load_group(g)
+        except Exception:
+            continue
+        for u in grp['units']:
+            if u.get('mode') in ('contract_only', 'assumed') or u.get('kind', 'fn') != 'fn':
+                continue
+            for pid in u.get('properties', []):
+                if pid in PROPS and g not in PROPS[pid]['groups']:
+                    PROPS[pid]['groups'].append(g)
+
+
+_auto_groups()
 
 for _p in PROPS.values():
     _p.setdefault('trusted', [])
